@@ -124,6 +124,21 @@ def run(chk, prog):
     outs = [ret for c, ret in r.returns]
     okix = any(ret == ("ctor", "Indexed", (P("chm"), ADDR), ()) for ret in outs) and any(ret == P("chm") for ret in outs) and len(r.raises) >= 1
     chk.require(okix, "CHM-INDEX", "Indexed.build", "empty maps and full slices stay as they are; partial slices raise", derived=str([show(x)[:40] for x in outs]), expected="chm / chm / empty / Indexed(chm, addr)", where=W(ix, "build"))
+    # the array-index arm of Indexed.get_inner_map maps `v -> Mask.build(v[i], match[i])` over EVERY pytree leaf of the inner map.  Nodes of the inner map carry
+    # structural array leaves that are not values (the `addr` of a nested Indexed level, the `idx` of a Switch): they get indexed and wrapped in a Mask too, so a
+    # vmapped builder C[0, i].set(v) or an index level above a traced switch answers lookups with a wrong flag / shape or raises
+    rg = ev.eval_fn(ix.methods["get_inner_map"], ix.module, ix)
+    generic_map = [ret for conds, ret in rg.returns if is_t(ret, "treemap") and ret[2] == (("attr", SELF, "c"),)]
+    structural = []
+    for cn, ci in K.items():
+        for fld in ci.fields:
+            ann = ci.field_ann.get(fld, "")
+            if fld in ci.static_fields or "ChoiceMap" in ann or ann in ("Any", "R", "T") or "dict" in ann or "list" in ann:
+                continue
+            structural.append(f"{cn}.{fld}: {ann}")
+    chk.require(not (generic_map and structural), "CHM-INDEX", "Indexed.get_inner_map/structural-leaves", "tree_map over all leaves of the inner map",
+                derived=f"array-index arm maps over every leaf of self.c; structural (non-value) array leaves of choice-map nodes: {structural}",
+                expected="only the values of Choice leaves are indexed and masked; a nested Indexed.addr / Switch.idx is indexed only along the batch axis and never wrapped in a Mask", where=W(ix, "get_inner_map"))
     sw = K["Switch"]
     r = ev.eval_fn(sw.methods["filter"], sw.module, sw)
     chms, IDX = ("attr", SELF, "chms"), ("attr", SELF, "idx")
